@@ -104,25 +104,6 @@ Qed.
 
 (* ---------------------------------------------------------------- rows *)
 
-Lemma nseq_In n : forall s y, In y (nseq n s) <-> s <= y < s + N.of_nat n.
-Proof.
-  induction n as [|n IH]; intros s y; cbn [nseq].
-  - split; [intros []|lia].
-  - cbn [In]. rewrite IH. lia.
-Qed.
-Lemma nseq_length n s : length (nseq n s) = n.
-Proof. revert s; induction n as [|n IH]; intros s; cbn [nseq length]; [reflexivity|]. rewrite IH. reflexivity. Qed.
-Lemma nseq_seq n : forall s, nseq n (N.of_nat s) = map N.of_nat (seq s n).
-Proof.
-  induction n as [|n IH]; intros s; cbn [nseq seq map]; [reflexivity|].
-  f_equal. replace (N.of_nat s + 1) with (N.of_nat (S s)) by lia. apply IH.
-Qed.
-Lemma nseq_nth n : forall s k, (k < n)%nat -> nth k (nseq n s) 0 = s + N.of_nat k.
-Proof.
-  induction n as [|n IH]; intros s k Hk; [lia|]. cbn [nseq].
-  destruct k as [|k]; cbn [nth]; [lia|]. rewrite IH by lia. lia.
-Qed.
-
 (* the rows of a view, relative to its data slice *)
 Definition row_ranges (v : view) : list (N * N) :=
   map (fun y => (y * v_pitch v, y * v_pitch v + v_w v * v_bpp v)) (nseq (N.to_nat (v_h v)) 0).
